@@ -78,6 +78,10 @@ ResetAll ==
   /\ stopped' = FALSE /\ inflightAtStop' = FALSE /\ lateStart' = FALSE /\ panicked' = ""
 
 OK == panicked = ""
+(* Variant: "asfound" (the flusher gives its role up in its deferred function), "repaired" (under the list lock when   *)
+(* it pops nothing, and when it leaves because the pool is stopping), "nounlock" (a seeded slip of the repair: the     *)
+(* role is not given up on the stopping path -- the specification must refute it: StrandedAfterRestart)               *)
+Rep == Variant \in {"repaired", "nounlock"}
 
 (* Go channel semantics: a value sent while a worker waits in its select is handed to that worker at once; *)
 (* otherwise it is buffered (capacity MaxQ). CanSend / Deliver describe both cases.                         *)
@@ -133,7 +137,7 @@ OFlusherSent   == FPc("put", "sent") /\ UNCHANGED <<pool, spc, fjob, wpc, wjob, 
 OFlusherExit   == FPc("leaving", "exitgate") /\ UNCHANGED <<pool, spc, fjob, wpc, wjob, tpc, rpc, ghost, xpc, parentCancelled>>
 EFlusherPop == FPc("loop", "popping") /\ listM = 0
                /\ (IF el = <<>> THEN fjob' = 0 /\ el' = el ELSE fjob' = Last(el) /\ el' = Front(el))
-               /\ lazyM' = (IF Variant = "repaired" /\ el = <<>> THEN FALSE ELSE lazyM)
+               /\ lazyM' = (IF Rep /\ el = <<>> THEN FALSE ELSE lazyM)
                /\ UNCHANGED <<running, ctxnil, cancelled, chclosed, ch, listM, sendWg, runWg, spc, wpc, wjob, tpc, rpc, ghost, stopM, xpc, parentCancelled>>
 EFlusherNothing == FPc("popped", "leaving") /\ fjob = 0 /\ UNCHANGED <<pool, spc, fjob, wpc, wjob, tpc, rpc, ghost, xpc, parentCancelled>>
 EFlusherCancelled == FPc("popped", "leaving") /\ fjob # 0 /\ cancelled
@@ -143,7 +147,7 @@ EFlusherPut == FPc("popped", "put") /\ fjob # 0 /\ CanSend /\ Deliver(fjob)
                /\ UNCHANGED <<running, ctxnil, cancelled, chclosed, el, listM, lazyM, sendWg, runWg, spc, fjob, tpc, rpc, ghost, stopM, xpc, parentCancelled>>
 (* the deferred function of the flusher *)
 EFlusherGone == FPc("exitgate", "none") /\ sendWg' = sendWg - 1
-                /\ lazyM' = (IF Variant = "repaired" THEN lazyM ELSE FALSE)
+                /\ lazyM' = (IF Rep THEN lazyM ELSE FALSE)
                 /\ UNCHANGED <<running, ctxnil, cancelled, chclosed, ch, el, listM, runWg, spc, fjob, wpc, wjob, tpc, rpc, ghost, stopM, xpc, parentCancelled>>
 
 (* ================= workers (run.go) ================= *)
@@ -247,6 +251,10 @@ StopWaitsForJobs == ~inflightAtStop
 (* the same as a safety property: no state in which a job sits in the deferred list although no flusher exists *)
 (* and no Send is in progress (nothing but a further Send would ever move it)                                 *)
 NoStrandedJob == ~(Stoppers = {} /\ Cancellers = {} /\ el # <<>> /\ fpc = "none" /\ \A j \in Jobs : spc[j] \in {"idle", "done"})
+(* ... and the same for a pool that was stopped and is running again: nothing sits in the deferred list with nobody to move it *)
+NoStrandedAfterRestart == ~(running /\ ~cancelled /\ el # <<>> /\ fpc = "none" /\ \A j \in Jobs : spc[j] \in {"idle", "done"})
+(* the flusher's role lock is never held by nobody *)
+NoOrphanRole == fpc = "none" => ~lazyM
 (* every job accepted by a running pool that nobody stops is executed, without any further Send *)
 EveryJobRuns == (Stoppers = {} /\ Cancellers = {}) => \A j \in Jobs : [](j \in accepted => <>(executed[j] = 1))
 (* a Send call always returns *)
